@@ -24,6 +24,10 @@ type Behaviour struct {
 	DuplicateEvery   int    `json:"duplicate_every,omitempty"` // send every k-th block twice
 	AllowedFast      []int  `json:"allowed_fast,omitempty"`    // pieces announced as allowed-fast (fast extension only)
 	RejectWhenChoked bool   `json:"reject_when_choked,omitempty"`
+	// RejectEvery: a fast-extension peer that, while unchoking, answers every k-th request with a reject message
+	// (each block at most once; the same request is served when it is sent again). What a client sees when a
+	// peer's reject for a request it read while choking crosses the peer's own unchoke.
+	RejectEvery int `json:"reject_every,omitempty"`
 	// CloseOnPieceDone: close the connection right after the last data byte of some piece has been sent
 	// (the client then handles the hash result of that piece with the peer already gone).
 	CloseOnPieceDone bool `json:"close_on_piece_done,omitempty"`
@@ -41,13 +45,14 @@ func (b *Behaviour) Honest() bool {
 
 // Server runs a Behaviour on a Peer.
 type Server struct {
-	P    *Peer
-	B    Behaviour
-	F    []byte
-	PL   int
-	Info []byte // bencoded info dictionary served over ut_metadata (nil: requests are rejected)
-	Mask []bool // optional: padding mask of F (needed by CloseOnPieceDone to know when a piece is fully supplied)
-	sent map[int]int
+	P        *Peer
+	B        Behaviour
+	F        []byte
+	PL       int
+	Info     []byte // bencoded info dictionary served over ut_metadata (nil: requests are rejected)
+	Mask     []bool // optional: padding mask of F (needed by CloseOnPieceDone to know when a piece is fully supplied)
+	sent     map[int]int
+	rejected map[[2]int]bool
 
 	mu           sync.Mutex
 	Served       int // blocks sent
@@ -222,6 +227,24 @@ func (s *Server) run() {
 					p.Send(refwire.Msg{Kind: "reject", Index: m.Index, Begin: m.Begin, Length: m.Length})
 				}
 				continue
+			}
+			if fast && s.B.RejectEvery > 0 {
+				s.mu.Lock()
+				nreq := s.Requests
+				key := [2]int{idx, beg}
+				again := s.rejected[key]
+				if !again && nreq%s.B.RejectEvery == 0 {
+					if s.rejected == nil {
+						s.rejected = map[[2]int]bool{}
+					}
+					s.rejected[key] = true
+				}
+				rej := !again && nreq%s.B.RejectEvery == 0
+				s.mu.Unlock()
+				if rej {
+					p.Send(refwire.Msg{Kind: "reject", Index: m.Index, Begin: m.Begin, Length: m.Length})
+					continue
+				}
 			}
 			if s.B.StallAfter > 0 && s.Served == s.B.StallAfter {
 				time.Sleep(time.Duration(s.B.StallMs) * time.Millisecond)
